@@ -22,6 +22,12 @@ func (s Step) String() string {
 		return fmt.Sprintf("append(r%d,%q,pc=%d)", s.R, s.Payload, s.PC)
 	case "join":
 		return fmt.Sprintf("join(r%d<-r%d)", s.R, s.S)
+	case "denyappend":
+		return fmt.Sprintf("denied-append(r%d)", s.R)
+	case "joinrejected":
+		return fmt.Sprintf("rejected-join(r%d<-copy-of-r%d+%d valid+1 %s entry)", s.R, s.S, s.PC, s.Payload)
+	case "fork":
+		return fmt.Sprintf("fork(r%d:=NewLog(entries,heads of r%d))", s.R, s.S)
 	case "setident":
 		return fmt.Sprintf("setident(r%d,w%d)", s.R, s.S)
 	case "reload":
@@ -29,6 +35,9 @@ func (s Step) String() string {
 	}
 	return fmt.Sprintf("%s(r%d)", s.Op, s.R)
 }
+
+// ExpectsError: operations that the library must refuse (and that must leave the log as it was).
+func (s Step) ExpectsError() bool { return s.Op == "denyappend" || s.Op == "joinrejected" }
 
 type History struct {
 	Seed          int64  `json:"seed"`
@@ -39,14 +48,16 @@ type History struct {
 	Order         string `json:"order"`
 	Codec         string `json:"codec"`
 	Shape         string `json:"shape"`
+	Failures      bool   `json:"failures,omitempty"` // replicas carry a payload-prefix deny policy; history has refused operations
 	Steps         []Step `json:"steps"`
 }
 
-var Shapes = []string{"mixed", "widefork", "diamond", "lopsided", "ring", "repeat", "twins", "overlap"}
+var Shapes = []string{"mixed", "widefork", "diamond", "lopsided", "ring", "repeat", "twins", "overlap", "manyheads"}
 
 var pcs = []int{1, 1, 1, 2, 4, 8, 16, 32, 64}
 
 type GenOpts struct {
+	Failures    bool // also generate refused operations (denied appends, rejected merges) and forks
 	Extra       bool // also generate setident / reload steps (C04)
 	MaxSteps    int
 	Orders      []string
@@ -75,6 +86,7 @@ func Gen(seed int64, idx int, o GenOpts) *History {
 	}
 	h := &History{Seed: seed, Idx: idx}
 	h.Replicas = 2 + rng.Intn(o.MaxReplicas-1)
+	h.Failures = o.Failures
 	h.Order = o.Orders[rng.Intn(len(o.Orders))]
 	h.Codec = o.Codecs[rng.Intn(len(o.Codecs))]
 	h.Shape = o.Shapes[idx%len(o.Shapes)]
@@ -112,6 +124,25 @@ func Gen(seed int64, idx int, o GenOpts) *History {
 		if len(h.Steps) < n {
 			h.Steps = append(h.Steps, s)
 		}
+		if o.Failures && len(h.Steps) < n && rng.Intn(7) == 0 {
+			// a refused operation or a fork, followed by ordinary traffic
+			switch rng.Intn(5) {
+			case 0:
+				h.Steps = append(h.Steps, Step{Op: "denyappend", R: s.R, Payload: pay()})
+			case 1, 2:
+				src := s.R
+				if rng.Intn(2) == 0 {
+					src = rng.Intn(h.Replicas)
+				}
+				h.Steps = append(h.Steps, Step{Op: "joinrejected", R: s.R, S: src, PC: rng.Intn(3), Payload: []string{"denied", "mis-signed"}[rng.Intn(2)]})
+			case 3:
+				if h.Replicas > 2 {
+					h.Steps = append(h.Steps, Step{Op: "fork", R: (s.R + 1 + rng.Intn(h.Replicas-1)) % h.Replicas, S: s.R})
+				}
+			case 4:
+				h.Steps = append(h.Steps, Step{Op: "joinempty", R: s.R})
+			}
+		}
 		if o.Extra && len(h.Steps) < n && s.Op == "join" && rng.Intn(4) == 0 {
 			// extra steps that must not disturb the clock: change writer / rebuild from storage
 			if rng.Intn(2) == 0 {
@@ -128,6 +159,43 @@ func Gen(seed int64, idx int, o GenOpts) *History {
 		return Step{Op: []string{"joinself", "joinempty", "joinforeign"}[rng.Intn(3)], R: r}
 	}
 	switch h.Shape {
+	case "manyheads":
+		// one long chain plus many short logs of other replicas: more heads than the pointer count
+		extra := 7 + rng.Intn(10)
+		h.Replicas = 1 + extra
+		R = h.Replicas
+		h.ReplicaWriter = nil
+		for r := 0; r < R; r++ {
+			h.ReplicaWriter = append(h.ReplicaWriter, r%h.Writers)
+		}
+		n = 30 + extra*3
+		for c := 8 + rng.Intn(12); c > 0; c-- {
+			add(app(0))
+		}
+		for r := 1; r < R; r++ {
+			add(app(r))
+			if rng.Intn(4) == 0 {
+				add(app(r))
+			}
+		}
+		for r := 1; r < R; r++ {
+			add(join(0, r))
+			if rng.Intn(3) == 0 {
+				add(Step{Op: "append", R: 0, PC: []int{1, 2, 4}[rng.Intn(3)], Payload: pay()})
+				add(app(r))
+			}
+		}
+		for c := 0; c < 3; c++ {
+			for r := 1; r < R; r++ {
+				if rng.Intn(2) == 0 {
+					add(app(r))
+				}
+			}
+			for r := 1; r < R; r++ {
+				add(join(0, r))
+			}
+			add(Step{Op: "append", R: 0, PC: []int{1, 2, 4}[rng.Intn(3)], Payload: pay()})
+		}
 	case "widefork":
 		for len(h.Steps) < n {
 			for r := 0; r < R; r++ {
@@ -285,6 +353,7 @@ type Exec struct {
 
 func NewExec(h *History) *Exec {
 	w := NewWorld(h.Seed, h.Writers, fmt.Sprintf("log-%d-%d", h.Seed, h.Idx), h.Order, h.Codec)
+	w.DenyPrefix = h.Failures
 	x := &Exec{W: w, H: h}
 	for r := 0; r < h.Replicas; r++ {
 		x.Logs = append(x.Logs, w.NewLog(h.ReplicaWriter[r]))
@@ -315,6 +384,62 @@ func (x *Exec) Do(i int) StepResult {
 	case "join":
 		_, err := l.Join(x.Logs[s.S], -1)
 		return StepResult{Err: err}
+	case "denyappend":
+		e, err := l.Append(x.W.Ctx, []byte(DenyPrefix+s.Payload), nil)
+		return StepResult{Entry: e, Err: err}
+	case "joinrejected":
+		// a copy of S's state (public constructor), 0-2 acceptable entries and one unacceptable entry on top
+		src := x.Logs[s.S]
+		lo := x.W.LogOpts(x.W.LogID)
+		lo.AccessController = nil
+		lo.Entries = src.GetEntries()
+		lo.Heads = src.Heads().Slice()
+		tmp, err := ipfslog.NewLog(x.W.Store.API(), x.W.Idents[x.Writer[s.S]], lo)
+		if err != nil {
+			panic(err)
+		}
+		for k := 0; k < s.PC; k++ {
+			if _, err := tmp.Append(x.W.Ctx, []byte(fmt.Sprintf("%d.%d/rj%d.%d", x.H.Seed, x.H.Idx, i, k)), nil); err != nil {
+				panic(err)
+			}
+		}
+		if s.Payload == "denied" {
+			if _, err := tmp.Append(x.W.Ctx, []byte(fmt.Sprintf("%s%d.%d/rj%d", DenyPrefix, x.H.Seed, x.H.Idx, i)), nil); err != nil {
+				panic(err)
+			}
+		} else {
+			e, err := tmp.Append(x.W.Ctx, []byte(fmt.Sprintf("%d.%d/rjbad%d", x.H.Seed, x.H.Idx, i)), nil)
+			if err != nil {
+				panic(err)
+			}
+			sig := e.GetSig()
+			bad := append([]byte(nil), sig...)
+			bad[len(bad)/2] ^= 0x10
+			ce := e.Copy()
+			ce.SetSig(bad)
+			ents := tmp.GetEntries()
+			ents.Set(e.GetHash().String(), ce)
+			lo2 := x.W.LogOpts(x.W.LogID)
+			lo2.AccessController = nil
+			lo2.Entries = ents
+			lo2.Heads = []iface.IPFSLogEntry{ce}
+			if tmp, err = ipfslog.NewLog(x.W.Store.API(), x.W.Idents[x.Writer[s.S]], lo2); err != nil {
+				panic(err)
+			}
+		}
+		_, jerr := l.Join(tmp, -1)
+		return StepResult{Err: jerr}
+	case "fork":
+		src := x.Logs[s.S]
+		lo := x.W.LogOpts(x.W.LogID)
+		lo.Entries = src.GetEntries()
+		lo.Heads = src.Heads().Slice()
+		nl, err := ipfslog.NewLog(x.W.Store.API(), x.W.Idents[x.Writer[s.R]], lo)
+		if err != nil {
+			return StepResult{Err: err}
+		}
+		x.Logs[s.R] = nl
+		return StepResult{}
 	case "setident":
 		l.SetIdentity(x.W.Idents[s.S])
 		x.Writer[s.R] = s.S
